@@ -146,7 +146,7 @@ def correspondence(ck, binpath, n, methods_file, corpus):
         ck.tie_broken("harness c24 corr failed (rc=%s)" % rc, err[-3000:])
         return
     cases = []
-    for l in out.splitlines():
+    for l in jlines(out):
         if not l.strip():
             continue
         v = json.loads(l)
@@ -202,7 +202,7 @@ def stdio(ck, binpath, ls_bin):
     if rc != 0:
         ck.tie_broken("harness c24 stdio failed (rc=%s)" % rc, err[-3000:])
         return
-    sessions = [json.loads(l) for l in out.splitlines() if l.strip()]
+    sessions = [json.loads(l) for l in jlines(out) if l.strip()]
     ck.log("stdio: %d handshake sessions" % len(sessions))
     ck.cov["distribution"]["stdio_sessions"] = [s["variant"] for s in sessions]
     # oracle: every request id exactly one response, clean exit after shutdown/exit
@@ -249,7 +249,7 @@ def search(ck, binpath, n, methods_file, corpus):
     ck.log("search done")
     if rc != 0:
         ck.tie_broken("harness c24 search failed (rc=%s)" % rc, err[-3000:])   # partial output is still used below
-    for l in out.splitlines():
+    for l in jlines(out):
         if not l.strip():
             continue
         try:
@@ -271,7 +271,7 @@ def replay(ck, binpath, path):
         if "msgs" not in case:
             continue
         rc, out, err = ck.run_bin(binpath, ["one", "--case-json", json.dumps({"msgs": case["msgs"]}), "--dir", ck.work], timeout=600)
-        for l in out.splitlines():
+        for l in jlines(out):
             if l.strip():
                 vv = json.loads(l)
                 if "signature" in vv:
